@@ -227,6 +227,12 @@ class Funcs:
                 return 7, self.meta(node.aux)
             if m == 'entries_len':
                 return list(ch), self.meta(node.aux), ('x',) * (n + 1)
+            if m == 'entries_short':
+                return list(ch) + [Leaf(-1)], self.meta(node.aux), tuple('e%d' % i for i in range(n))
+            if m == 'entries_empty':
+                return list(ch) + [Leaf(-2)], self.meta(node.aux), ()
+            if m == 'entries_short_gen':
+                return self._gen(list(ch) + [Leaf(-3)]), self.meta(node.aux), ['g%d' % i for i in range(n)]
             if m == 'entries_noniter':
                 return list(ch), self.meta(node.aux), 7
             if m == 'not_tuple':
@@ -316,7 +322,7 @@ class NTM(NT1):
     __slots__ = ()
 
 
-MALFORMS = ('len1', 'len4', 'noniter', 'entries_len', 'entries_noniter', 'not_tuple')
+MALFORMS = ('len1', 'len4', 'noniter', 'entries_len', 'entries_short', 'entries_empty', 'entries_short_gen', 'entries_noniter', 'not_tuple')
 STRUCTSEQ_TYPES = (time.struct_time,)
 
 
